@@ -91,9 +91,26 @@ impl NetworkAddress {
     }
 
     /// Encode a SocketAddr to four-word format using four-word-networking
+    ///
+    /// The word form is only produced when it decodes back to exactly this
+    /// address: the encoder is lossy for some IPv6 addresses (it drops the port
+    /// or low-order bits), and a word form naming another address is worse than none.
     fn encode_four_words(addr: &SocketAddr) -> Option<String> {
-        match FourWordAdaptiveEncoder::new().and_then(|enc| enc.encode(&addr.to_string())) {
-            Ok(s) => Some(s.replace(' ', "-")),
+        let enc = match FourWordAdaptiveEncoder::new() {
+            Ok(enc) => enc,
+            Err(e) => {
+                tracing::warn!("Failed to encode address {addr}: {e}");
+                return None;
+            }
+        };
+        match enc.encode(&addr.to_string()) {
+            Ok(s) => match Self::decode_words(&enc, &s) {
+                Ok(decoded) if decoded == *addr => Some(s.replace(' ', "-")),
+                _ => {
+                    tracing::debug!("No lossless four-word form for {addr}");
+                    None
+                }
+            },
             Err(e) => {
                 tracing::warn!("Failed to encode address {addr}: {e}");
                 None
@@ -101,12 +118,23 @@ impl NetworkAddress {
         }
     }
 
+    /// Decode space-separated words to a socket address.
+    fn decode_words(enc: &FourWordAdaptiveEncoder, words: &str) -> Result<SocketAddr> {
+        let decoded = enc.decode(words)?; // returns a normalized address string
+        if let Ok(socket_addr) = decoded.parse::<SocketAddr>() {
+            return Ok(socket_addr);
+        }
+        // four-word-networking uses port 65535 as its "no port" marker and then
+        // renders the bare IP address
+        let ip: IpAddr = decoded.parse()?;
+        Ok(SocketAddr::new(ip, u16::MAX))
+    }
+
     /// Decode four-word format to NetworkAddress using four-word-networking
     pub fn from_four_words(words: &str) -> Result<Self> {
         let enc = FourWordAdaptiveEncoder::new()?;
         let normalized = words.replace('-', " ");
-        let decoded = enc.decode(&normalized)?; // returns a normalized address string
-        let socket_addr: SocketAddr = decoded.parse()?; // must include port
+        let socket_addr = Self::decode_words(&enc, &normalized)?;
         Ok(Self::new(socket_addr))
     }
 
